@@ -108,8 +108,36 @@ fn build(files: &[(String, String)]) -> Parser<String> {
 }
 
 // ---------------------------------------------------------------- validate
-fn mode_validate(c: &Case, out: &mut String) {
-    let p = build(&c.files);
+// a case may reach its project through a history (OP lines); its files are then the contents that survive it
+fn run_ops(ops: &[Op]) -> (Parser<String>, Vec<(String, String)>) {
+    let mut p = Parser::new();
+    let mut abs: Vec<(String, String)> = Vec::new();
+    for op in ops {
+        match op {
+            Op::Add(id, t) => {
+                p.add_content(id.clone(), t);
+                if let Some(e) = abs.iter_mut().find(|(i, _)| i == id) {
+                    e.1 = t.clone();
+                } else {
+                    abs.push((id.clone(), t.clone()));
+                }
+            }
+            Op::Remove(id) => {
+                p.remove_content(id.clone());
+                abs.retain(|(i, _)| i != id);
+            }
+            Op::Validate => {
+                let _ = p.validate();
+            }
+            _ => panic!("file operations are not supported in validate mode"),
+        }
+    }
+    (p, abs)
+}
+
+fn mode_validate(c0: &Case, out: &mut String) {
+    let (p, files) = if c0.ops.is_empty() { (build(&c0.files), c0.files.clone()) } else { run_ops(&c0.ops) };
+    let c = &Case { name: c0.name.clone(), files, ops: Vec::new() };
     let parsed: Res = p.verif_parse_results().clone();
     let v1 = p.validate();
     write!(out, "V {} (", c.name).unwrap();
